@@ -41,6 +41,12 @@ func genC17(t *rapid.T) c17Prog {
 			if rapid.IntRange(0, 2).Draw(t, "failpub") == 0 { // the write that fails is a publication
 				ops = append(ops, sim.Op{Kind: "publish", A: rapid.IntRange(0, w.Replicas-1).Draw(t, "pubrep")})
 			}
+		case 4:
+			// the caller's context is already cancelled when the next append / publication is issued
+			ops = append(ops, sim.Op{Kind: "cancelnext"})
+			if rapid.IntRange(0, 2).Draw(t, "cancelpub") == 0 {
+				ops = append(ops, sim.Op{Kind: "publish", A: rapid.IntRange(0, w.Replicas-1).Draw(t, "pubrep")})
+			}
 		case 3:
 			ops = append(ops, sim.Op{Kind: "twindeny", B: rapid.IntRange(0, 1<<10).Draw(t, "twin")})
 		}
@@ -75,9 +81,21 @@ func runC17(tb ev.TB, p c17Prog) ev.Result {
 	nfail := 0
 	var committed []committedAppend
 	twins, exactTwins, multiWrite, leftovers := 0, 0, 0, 0
+	cancelArmed, cancelled := false, 0
 	for i, op := range p.World.Ops {
 		n := len(w.Reps)
+		opCtx := ctx
+		if cancelArmed && (op.Kind == "append" || op.Kind == "publish") {
+			cancelArmed = false
+			cctx, cancel := context.WithCancel(ctx)
+			cancel()
+			opCtx = cctx
+			cancelled++
+		}
 		switch op.Kind {
+		case "cancelnext":
+			cancelArmed = true
+			continue
 		case "twindeny":
 			// a second replica of the same writer that holds exactly the history one committed entry was appended
 			// on asks to append the same payload with the same options, and its access controller refuses: the
@@ -124,7 +142,14 @@ func runC17(tb ev.TB, p c17Prog) ev.Result {
 			r := w.Reps[op.A%n]
 			before := takeState(r.Log)
 			writesBefore := w.Store.NumWrites()
-			c, err := r.Log.ToMultihash(ctx)
+			c, err := r.Log.ToMultihash(opCtx)
+			if opCtx != ctx && err != nil && len(r.Model) > 0 {
+				// refused because the caller had given up: fine, provided nothing changed
+				if d := before.diff(takeState(r.Log)); d != "" {
+					tb.Fatalf("op #%d publish with a cancelled context failed and changed the log: %s", i, d)
+				}
+				continue
+			}
 			if len(r.Model) == 0 {
 				if err == nil {
 					tb.Fatalf("publishing an empty log returned no error")
@@ -182,7 +207,16 @@ func runC17(tb ev.TB, p c17Prog) ev.Result {
 		writesBefore := w.Store.NumWrites()
 		addsBefore := w.Store.NumAdds()
 		clockBefore := w.Reps[a].Log.Clock.GetTime()
+		w.Ctx = opCtx
 		info := w.Exec(tb, i, op, false)
+		w.Ctx = ctx
+		if op.Kind == "append" && opCtx != ctx && info.Err != nil && !failArmed {
+			// refused because the caller had given up: fine, provided nothing changed
+			if d := before.diff(takeState(w.Reps[a].Log)); d != "" {
+				tb.Fatalf("op #%d: an append with a cancelled context failed and changed the log: %s", i, d)
+			}
+			continue
+		}
 		if op.Kind == "append" && failArmed {
 			failArmed = false
 			nfail++
@@ -374,6 +408,7 @@ func runC17(tb ev.TB, p c17Prog) ev.Result {
 	}
 	ev.Get("C17").AddExtra("write_prefixes_checked", total)
 	ev.Get("C17").AddExtra("loads_from_prefixes", loads)
+	ev.Get("C17").AddExtra("operations_issued_with_a_cancelled_context", cancelled)
 	ev.Get("C17").AddExtra("injected_write_failures", nfail)
 	ev.Get("C17").AddExtra("operations_repeated_right_after_a_failed_write", retries)
 	ev.Get("C17").AddExtra("publications_repeated_right_after_a_failed_write", pubRetries)
@@ -440,7 +475,7 @@ func (a state) diff(b state) string {
 func TestC17(t *testing.T) {
 	c := ev.Get("C17")
 	c.Level = "fault_enumeration"
-	c.Rule = "a generated multi-replica program over ONE shared store (appends with skip references, unbounded merges, identity changes, default or link-key codec) interleaved with manifest publications, injected block-write failures (half of them followed at once by the same operation again: the publication repeated, the append made by a second replica of the same writer in the same state) and appends that an access controller refuses although they reproduce a committed block. Crash points are the boundaries between block writes of the fake store (every Dag().Add of the library is one atomic step): for EVERY write prefix of the history every entry block must decode and name only blocks written before it, and every manifest only stored heads. Every value returned to a caller (each append's hash, each manifest CID) is loaded from the store truncated to the prefix that existed when it was returned, from the final store and from further prefixes (all later prefixes in the thorough tier, 2 generated ones in quick) and must give exactly the entry set / heads / values of the log at that moment. An operation whose block write fails must either return an error and leave entries and heads unchanged, or return a value whose block is stored after all (it is then held to the same loads). Non-trivial = history with a merge-append (entry with >= 2 predecessors) and an append after a publication by the same replica; distinct = distinct program."
+	c.Rule = "a generated multi-replica program over ONE shared store (appends with skip references, unbounded merges, identity changes, default or link-key codec) interleaved with manifest publications, injected block-write failures (half of them followed at once by the same operation again: the publication repeated, the append made by a second replica of the same writer in the same state) appends that an access controller refuses although they reproduce a committed block, and appends / publications issued with an already cancelled context (whatever they return without an error must be stored). Crash points are the boundaries between block writes of the fake store (every Dag().Add of the library is one atomic step): for EVERY write prefix of the history every entry block must decode and name only blocks written before it, and every manifest only stored heads. Every value returned to a caller (each append's hash, each manifest CID) is loaded from the store truncated to the prefix that existed when it was returned, from the final store and from further prefixes (all later prefixes in the thorough tier, 2 generated ones in quick) and must give exactly the entry set / heads / values of the log at that moment. An operation whose block write fails must either return an error and leave entries and heads unchanged, or return a value whose block is stored after all (it is then held to the same loads). Non-trivial = history with a merge-append (entry with >= 2 predecessors) and an append after a publication by the same replica; distinct = distinct program."
 	c.Assumptions = []string{"replicas share one store (the statement's setting); block writes are atomic", "the clock bump of a failed append is not part of the observable state checked (entries and heads are)"}
 	ev.Check(t, "C17", genC17, runC17)
 }
